@@ -112,3 +112,144 @@ Proof.
   - rewrite enum_firstn. f_equal. lia.
   - fold items. apply acut_all. intros k x Hin. apply enum_bound in Hin. lia.
 Qed.
+
+(* ------------------------------------------------------------------------------------------- *)
+(* after 57195f1 / 8dbb372 the counters are exact for EVERY operation, in both storages and across both storage
+   switches *)
+
+Definition ExactA (a : iarr) : Prop :=
+  match a with
+  | ID d => ExactD d
+  | IS s => sa_pvc s = count_vp_items (sa_items s)
+  end.
+
+Lemma count_present_app a b : count_present (a ++ b) = (count_present a + count_present b)%Z.
+Proof. induction a as [|x r IH]; simpl app; [unfold count_present at 2; simpl; lia|]. rewrite !count_present_cons, IH. lia. Qed.
+Lemma count_vp_app a b : count_vp (a ++ b) = (count_vp a + count_vp b)%Z.
+Proof. induction a as [|x r IH]; simpl app; [unfold count_vp at 2; simpl; lia|]. rewrite !count_vp_cons, IH. lia. Qed.
+Lemma count_nones m : count_present (repeat None m) = 0%Z /\ count_vp (repeat None m) = 0%Z.
+Proof. induction m; simpl; [split; reflexivity|]. rewrite count_present_cons, count_vp_cons. simpl. lia. Qed.
+
+(* length truncation: objCount is exact too (57195f1) *)
+Theorem dense_setlength_counters d l : InvDn d -> ExactD d -> ExactD (fst (d_setLength d l)).
+Proof.
+  intros Hinv [Ho Hp]. split; [|apply dense_setlength_pvc; auto].
+  unfold d_setLength. destruct (da_lw d); simpl; auto.
+  unfold d_setLengthInt.
+  destruct (if (l <=? da_length d) && (0 <? da_pvc d)%Z
+            then d_scan (rev (skipn (N.to_nat (N.min l (nlen (da_values d)))) (da_values d))) (nlen (da_values d) - 1) l (da_pvc d)
+            else (l, true, da_pvc d)) as [[n' ok] pvc'].
+  simpl. destruct (n' <=? nlen (da_values d)); auto.
+  rewrite Ho. rewrite <- (firstn_skipn (N.to_nat n') (da_values d)) at 1. rewrite count_present_app. lia.
+Qed.
+
+Lemma expand_dnth a1 k a2 b : d_expand a1 k = (ID a2, b) -> dnth (da_values a2) k = dnth (da_values a1) k.
+Proof.
+  intros E. destruct (d_expand_cases a1 k) as [[Hc Ee]|[[Hc Ee]|[Hc Ee]]]; rewrite Ee in E; inversion E; subst; auto.
+  unfold d_with_values. simpl. rewrite dnth_grow by lia. symmetry. apply dnth_ge. lia.
+Qed.
+
+(* storing after [expand]: every outcome counts the stored property exactly once *)
+Lemma expand_store_exact a1 k x : ExactD a1 ->
+  match d_expand a1 k with
+  | (ID a2, _) =>
+      let old := dnth (da_values a2) k in
+      ExactD (d_put (d_cnt a2 (match old with None => 1 | Some _ => 0 end)
+                           ((match old with Some (IProp _) => -1 | _ => 0 end) + (if is_vp x then 1 else 0))%Z) k (Some x))
+  | (IS s, _) => (sa_pvc s + (if is_vp x then 1 else 0))%Z = count_vp_items (ains (sa_items s) k x)
+  end.
+Proof.
+  intros [Ho Hp].
+  destruct (d_expand_cases a1 k) as [[Hc Ee]|[[Hc Ee]|[Hc Ee]]]; rewrite Ee.
+  - cbv zeta. set (old := dnth (da_values a1) k).
+    match goal with |- ExactD (d_put ?A k (Some x)) => set (a2 := A) end.
+    destruct (d_put_counts a2 k (Some x)) as [H1 H2]; [subst a2; simpl; lia|].
+    split; [rewrite H1|rewrite H2]; subst a2; simpl; fold old; destruct old as [[v|p]|]; simpl; unfold vpz; simpl;
+      destruct (is_vp x); lia.
+  - simpl. erewrite cnt_ains; [|apply enum_asc|lia]. rewrite enum_lookup_dnth, (dnth_ge _ k) by lia.
+    rewrite cnt_enum. simpl. unfold vpz. destruct (is_vp x); lia.
+  - unfold d_with_values. cbv zeta. simpl da_values.
+    set (vs' := da_values a1 ++ repeat None (N.to_nat (k + 1 - nlen (da_values a1)))).
+    assert (Hd : dnth vs' k = None) by (apply dnth_grow; lia).
+    assert (Hn' : nlen vs' = k + 1) by (apply nlen_grow; lia).
+    rewrite Hd.
+    match goal with |- ExactD (d_put ?A k (Some x)) => set (a2 := A) end.
+    destruct (d_put_counts a2 k (Some x)) as [H1 H2]; [subst a2; simpl; lia|].
+    destruct (count_nones (N.to_nat (k + 1 - nlen (da_values a1)))) as [Hz1 Hz2].
+    split; [rewrite H1|rewrite H2]; subst a2; simpl; rewrite Hd; unfold vs';
+      rewrite ?count_present_app, ?count_vp_app, ?Hz1, ?Hz2; simpl; unfold vpz; simpl; destruct (is_vp x); lia.
+Qed.
+
+Lemma d_step_exact d k : nlen (da_values d) <= da_length d -> ExactD d ->
+  forall a1 ok, (if da_length d <=? k then d_setLengthInt_chk d (k + 1) else (d, true)) = (a1, ok) ->
+  da_values a1 = da_values d /\ ExactD a1.
+Proof.
+  intros Hlen Hex a1 ok E. destruct (N.leb_spec (da_length d) k).
+  - destruct (da_lw d) eqn:Ew.
+    + rewrite (d_grow d k Hlen H Ew) in E. inversion E; subst. simpl. auto.
+    + unfold d_setLengthInt_chk in E. destruct (N.eqb_spec (k + 1) (da_length d)); [lia|].
+      rewrite Ew in E. simpl in E. inversion E; subst. auto.
+  - inversion E; subst. auto.
+Qed.
+
+Theorem dense_define_counters_all d k dsc : InvDn d -> ExactD d -> ExactA (fst (d_defineIdx d k dsc)).
+Proof.
+  intros [Hlen _] Hex. unfold d_defineIdx.
+  destruct (goja_define (b_ext (da_base d)) (dnth (da_values d) k) dsc) as [prop|]; [|exact Hex].
+  destruct (if da_length d <=? k then d_setLengthInt_chk d (k + 1) else (d, true)) as [a1 ok] eqn:E1.
+  destruct (d_step_exact d k Hlen Hex a1 ok E1) as [Hv Hex1].
+  destruct ok; simpl negb; cbv iota; [|exact Hex1].
+  pose proof (expand_store_exact a1 k prop Hex1) as Hst.
+  destruct (d_expand a1 k) as [[a2|s] b]; simpl.
+  - exact Hst.
+  - rewrite Hst. reflexivity.
+Qed.
+
+Theorem dense_set_counters_all d k v : InvDn d -> ExactD d -> ExactA (fst (d_setOwnIdx d k v)).
+Proof.
+  intros [Hlen _] Hex. unfold d_setOwnIdx.
+  destruct (dnth (da_values d) k) as [[w|p]|] eqn:E.
+  - pose proof (dnth_some_lt _ _ _ E) as Hk. pose proof (dense_set_counters d k v Hex Hk Hlen) as H.
+    unfold d_setOwnIdx in H. rewrite E in H. exact H.
+  - pose proof (dnth_some_lt _ _ _ E) as Hk. pose proof (dense_set_counters d k v Hex Hk Hlen) as H.
+    unfold d_setOwnIdx in H. rewrite E in H. destruct (negb (vp_isWritable p)); exact H.
+  - destruct (proto_set_foreign (b_proto (da_base d)) k); [exact Hex|].
+    destruct (b_ext (da_base d)); simpl negb; cbv iota; [|exact Hex].
+    destruct (if da_length d <=? k then d_setLengthInt_chk d (k + 1) else (d, true)) as [a1 ok] eqn:E1.
+    destruct (d_step_exact d k Hlen Hex a1 ok E1) as [Hv Hex1].
+    destruct ok; simpl negb; cbv iota; [|exact Hex1].
+    pose proof (expand_store_exact a1 k (IPlain v) Hex1) as Hst.
+    destruct (N.leb_spec (nlen (da_values a1)) k).
+    + destruct (d_expand a1 k) as [[a2|s] b] eqn:Ee; simpl.
+      * pose proof (expand_dnth _ _ _ _ Ee) as Hd. rewrite Hv, E in Hd. cbv zeta in Hst. rewrite Hd in Hst.
+        simpl in Hst. exact Hst.
+      * simpl in Hst. rewrite <- Hst. lia.
+    + (* the slot exists and is a hole *)
+      destruct (d_expand_cases a1 k) as [[Hc Ee]|[[Hc Ee]|[Hc Ee]]]; try lia.
+      rewrite Ee in Hst. cbv zeta in Hst. rewrite Hv, E in Hst. simpl in Hst. simpl. exact Hst.
+Qed.
+
+(* sparse: propValueCount exact *)
+Theorem sparse_delete_counters s k : ascg 0 (sa_items s) -> ExactA (IS s) -> ExactA (IS (fst (sp_deleteIdx s k))).
+Proof.
+  intros Hasc Hp. simpl in *. unfold sp_deleteIdx.
+  destruct (alookup (sa_items s) k) as [[v|p]|] eqn:E; simpl; auto.
+  - erewrite cnt_adel; eauto. rewrite E. simpl. unfold vpz; simpl. lia.
+  - destruct (vp_c p); simpl; auto. erewrite cnt_adel; eauto. rewrite E. simpl. unfold vpz; simpl. lia.
+Qed.
+
+Theorem sparse_setlength_counters s l : InvSp s -> ExactA (IS s) -> ExactA (IS (fst (sp_setLength s l))).
+Proof.
+  intros (Hasc & Hkeys & Hclean & Hcnt) Hp. simpl in *. unfold sp_setLength.
+  destruct (sa_lw s); simpl; auto.
+  unfold sp_setLengthInt, sp_setLengthInt_gen.
+  destruct (if (l <=? sa_length s) && (0 <? sa_pvc s)%Z then sp_scan true (rev (sa_items s)) l (sa_pvc s)
+            else (l, true, sa_pvc s)) as [[n' ok] pvc'] eqn:E.
+  simpl. pose proof (cnt_partition (sa_items s) n') as Hpart.
+  destruct ((l <=? sa_length s) && (0 <? sa_pvc s)%Z) eqn:Eb.
+  - destruct (sp_scan_spec _ _ _ _ _ _ _ Hasc E) as (_ & Hq & _). lia.
+  - inversion E; subst. apply andb_false_iff in Eb. destruct Eb as [Eb|Eb].
+    + apply N.leb_gt in Eb. rewrite acut_all; [auto|]. intros k x Hin. specialize (Hkeys _ _ Hin). lia.
+    + apply Z.ltb_ge in Eb. pose proof (cnt_nonneg (sa_items s)). pose proof (cnt_nonneg (acut (sa_items s) n')).
+      pose proof (cnt_nonneg (filter (fun p => (n' <=? fst p)%N) (sa_items s))). lia.
+Qed.
